@@ -12,10 +12,13 @@ package main
 import (
 	"context"
 	"encoding/binary"
+	"encoding/json"
 	"fmt"
 	"os"
 	"runtime"
 	"sort"
+	"strconv"
+	"strings"
 	"sync"
 	"sync/atomic"
 	"time"
@@ -179,10 +182,16 @@ func runFilter(in filterIn) (string, interface{}, map[string]interface{}, bool) 
 
 // ================================================================ (B) channels
 
-type c16Payload struct{ id uint64 }
+type c16Payload struct {
+	id          uint64
+	failMarshal bool
+}
 
 func (p *c16Payload) Type() string { return "verif/c16" }
 func (p *c16Payload) Marshal() ([]byte, error) {
+	if p.failMarshal {
+		return nil, fmt.Errorf("payload cannot be marshalled")
+	}
 	b := make([]byte, 8)
 	binary.BigEndian.PutUint64(b, p.id)
 	return b, nil
@@ -442,7 +451,7 @@ func runChan(in chanIn, budget time.Duration) (coq string, out interface{}, sig 
 		sends = append(sends, s)
 		s.inv = h.tick()
 		h.mu.Unlock()
-		if err := sys.channel(peer).Send(sendCtx, &c16Payload{s.payload}, strategy); err != nil {
+		if err := sys.channel(peer).Send(sendCtx, &c16Payload{id: s.payload}, strategy); err != nil {
 			panic(err)
 		}
 		h.mu.Lock()
@@ -716,6 +725,7 @@ func doCancel(h *history, hr *hrec) {
 type input struct {
 	Filter *filterIn `json:"filter,omitempty"`
 	Chan   *chanIn   `json:"chan,omitempty"`
+	Fault  *faultIn  `json:"fault,omitempty"`
 }
 
 type result struct {
@@ -735,6 +745,15 @@ func runOne(id string, in input) result {
 		return r
 	}
 	budget := 30 * time.Second
+	if in.Fault != nil {
+		r.coq, r.out, r.sig, r.nontrivial, r.incon = runFault(*in.Fault, budget)
+		if r.incon != "" {
+			f := *in.Fault
+			f.Name += "-retry"
+			r.coq, r.out, r.sig, r.nontrivial, r.incon = runFault(f, 4*budget)
+		}
+		return r
+	}
 	r.coq, r.out, r.sig, r.nontrivial, r.incon = runChan(*in.Chan, budget)
 	if r.incon != "" {
 		c := *in.Chan
@@ -794,6 +813,9 @@ func main() {
 		if in.Chan != nil {
 			in.Chan.Name = fmt.Sprintf("verif-c16-replay-%d", time.Now().UnixNano())
 		}
+		if in.Fault != nil {
+			in.Fault.Name = fmt.Sprintf("verif-c16-replay-%d", time.Now().UnixNano())
+		}
 		emit(em, runOne("replay", in))
 		em.Close("replay", nil)
 		return
@@ -823,7 +845,15 @@ func main() {
 				Handlers: []handlerIn{{Peer: 1, When: "late", Cancel: "never", K: 1}, {Peer: 0, When: "early", Cancel: "afterK", K: 1}}}}},
 		)
 	}
+	for i, f := range faultCorpus(name) {
+		f := f
+		jobs = append(jobs, job{fmt.Sprintf("corpus-fault-%02d", i), input{Fault: &f}})
+	}
 	// --- random
+	for i, n := 0, o.Count(60, 1000); i < n; i++ {
+		f := genFault(rng.Fork(fmt.Sprintf("fault%d", i)), name(20000+i))
+		jobs = append(jobs, job{fmt.Sprintf("fault-%d", i), input{Fault: &f}})
+	}
 	nF := o.Count(120, 2000)
 	for i := 0; i < nF; i++ {
 		f := genFilter(rng.Fork(fmt.Sprintf("filter%d", i)))
@@ -839,9 +869,22 @@ func main() {
 		jobs = append(jobs, job{fmt.Sprintf("chan-%s-%d", system, i), input{Chan: &c}})
 	}
 
+	if only := os.Getenv("C16_ONLY"); only != "" { // development aid: run one class of histories
+		var kept []job
+		for _, j := range jobs {
+			if strings.Contains(j.id, only) {
+				kept = append(kept, j)
+			}
+		}
+		jobs = kept
+	}
 	results := make([]result, len(jobs))
 	var wg sync.WaitGroup
-	sem := make(chan struct{}, 8)
+	par := 8
+	if v, err := strconv.Atoi(os.Getenv("C16_PAR")); err == nil && v > 0 {
+		par = v
+	}
+	sem := make(chan struct{}, par)
 	for i := range jobs {
 		wg.Add(1)
 		sem <- struct{}{}
@@ -857,6 +900,9 @@ func main() {
 		if r.incon != "" {
 			nIncon++
 			em.Tally("inconclusive-" + r.incon)
+			if b, err := json.Marshal(r.in); err == nil {
+				fmt.Fprintf(os.Stderr, "c16: history %s inconclusive (%s): %s\n", r.id, r.incon, b)
+			}
 			continue
 		}
 		emit(em, r)
@@ -870,12 +916,25 @@ func main() {
 		"overlapping duplicate messages, or one local/libp2p broadcast channel group with concurrent senders, retransmission "+
 		"rounds, early/mid/late handler registration and cancellations (from outside, from inside the delegate, while the "+
 		"delegate is blocked) followed by further sends; distinct by the recorded history; non-trivial when a filter history "+
-		"has >= 2 goroutines, >= 2 deliveries and at least one suppressed duplicate, or a channel history has >= 3 sends and a cancellation",
+		"has >= 2 goroutines, >= 2 deliveries and at least one suppressed duplicate, or a channel history has >= 3 sends and a cancellation; "+
+		"or one long-lived libp2p channel whose publisher fails on scripted publish calls (first publish of a Send, retransmissions, "+
+		"alternating, random; Marshal failures; cancelled Sends) with hand-fed retransmission rounds and a receiving channel, "+
+		"non-trivial when the first publish of some Send failed, a retransmission succeeded and at least two messages were published",
 		map[string]interface{}{"inconclusive": nIncon})
 }
 
 func emit(em *lib.Emitter, r result) {
-	if r.in.Filter != nil {
+	if r.in.Fault != nil {
+		em.Tally("fault")
+		for _, k := range []string{"first_failed", "retx_failed", "marshal_failed", "cancelled", "dup_seqno"} {
+			if b, _ := r.sig[k].(bool); b {
+				em.Tally("fault-" + k)
+			}
+		}
+		if r.in.Fault.Backoff {
+			em.Tally("fault-backoff")
+		}
+	} else if r.in.Filter != nil {
 		em.Tally("filter")
 		em.Tally(fmt.Sprintf("filter-threads-%d", len(r.in.Filter.Threads)))
 	} else {
